@@ -556,23 +556,55 @@ def needsParens (operand : Expr) (op : BinOp) (right : Bool) : Bool :=
   | .bin o _ _ _ => if right then prec o ≤ prec op else prec o < prec op
   | _ => false
 
+/-- the text of an operand token (empty when the model does not cover the form, see `atomCovered`) -/
+def atomText (a : Atom) : List Char :=
+  match fmtAtom a with
+  | .ok s => s.toList
+  | _ => []
+
+def atomCovered (a : Atom) : Bool :=
+  match fmtAtom a with
+  | .ok _ => true
+  | _ => false
+
+def opChars (o : BinOp) : List Char := (opStr o).toList
+def unChars (o : UnOp) : List Char := o.str.toList
+
 mutual
-/-- Node.Format → text. `extra` = the parentheses `formatOperand` asks for (only a BinaryNode honours it). -/
-def fmtStrP : Expr → Bool → Res String
-  | .lit a, _ => fmtAtom a
-  | .id s, _ => .ok s
-  | .un op e, _ => (fmtStrP e true).bind (fun s => .ok (op.str ++ s))
+/-- Node.Format → text, as characters. `extra` = the parentheses `formatOperand` asks for (only a BinaryNode
+honours it). -/
+def fmtCharsP : Expr → Bool → List Char
+  | .lit a, _ => atomText a
+  | .id s, _ => s.toList
+  | .un op e, _ => unChars op ++ fmtCharsP e true
   | .bin o l r p, extra =>
-    (fmtStrP l (needsParens l o false)).bind (fun a => (fmtStrP r (needsParens r o true)).bind (fun b =>
-      .ok ((if p || extra then "(" else "") ++ a ++ " " ++ opStr o ++ " " ++ b ++ (if p || extra then ")" else ""))))
-  | .call f args, _ => (fmtArgs args).bind (fun s => .ok (f ++ "(" ++ s ++ ")"))
-def fmtArgs : List Expr → Res String
-  | [] => .ok ""
-  | [a] => fmtStrP a false
-  | a :: rest => (fmtStrP a false).bind (fun s => (fmtArgs rest).bind (fun t => .ok (s ++ ", " ++ t)))
+    (if p || extra then ['('] else []) ++ fmtCharsP l (needsParens l o false) ++ ' ' :: opChars o ++
+      ' ' :: fmtCharsP r (needsParens r o true) ++ (if p || extra then [')'] else [])
+  | .call f args, _ => f.toList ++ '(' :: fmtArgChars args ++ [')']
+def fmtArgChars : List Expr → List Char
+  | [] => []
+  | [a] => fmtCharsP a false
+  | a :: rest => fmtCharsP a false ++ ',' :: ' ' :: fmtArgChars rest
 end
 
-def fmtStr (e : Expr) : Res String := fmtStrP e false
+mutual
+/-- every number in the tree has a form the model prints (base 8 / 10, no negative octal) -/
+def covered : Expr → Bool
+  | .lit a => atomCovered a
+  | .id _ => true
+  | .un _ e => covered e
+  | .bin _ l r _ => covered l && covered r
+  | .call _ args => coveredAll args
+def coveredAll : List Expr → Bool
+  | [] => true
+  | a :: rest => covered a && coveredAll rest
+end
+
+def fmtChars (e : Expr) : List Char := fmtCharsP e false
+
+/-- Node.Format → text -/
+def fmtStr (e : Expr) : Res String :=
+  if covered e then .ok (String.ofList (fmtChars e)) else .na "number-form"
 
 mutual
 /-- Node.Format → decoded tokens (the structure of the printed text) -/
